@@ -362,12 +362,32 @@ func c17CheckLimits(ctx *vfCtx, c c17LimCase) {
 		f := pick(c17FieldOrder, cpOver)
 		switch {
 		case got == "refused":
+		case got == "persistable" || got == "persistable-without-event":
+			// Every field over a hard limit was passed over in favour of a lenient byte-length
+			// error. One finding per such field; the signature names BOTH the field whose
+			// byte-length error was returned (exact when only one field is over the byte limit,
+			// as in every enumerated pair) and the hard-limit field it hides.
+			mask := pick(c17MaskOrder, byteOver)
+			hard := make([]string, 0, len(cpOver))
+			for _, h := range c17FieldOrder {
+				if cpOver[h] {
+					hard = append(hard, h)
+				}
+			}
+			for _, h := range hard {
+				if fieldVariant(h) != "" {
+					unchecked(h)
+					continue
+				}
+				name := h
+				if h == "event" {
+					name = "event-size"
+				}
+				ctx.Fail("C17/limits/persistable-despite-excess/masked-by-"+mask+"/hard-"+name,
+					"%s: %s exceeds the hard limit (255 code points / 65536 bytes) but the error is Persistable (%q): the byte-length error of %s was returned first", desc, name, eve.Message, mask)
+			}
 		case fieldVariant(f) != "":
 			unchecked(f)
-		case got == "persistable" || got == "persistable-without-event":
-			mask := pick(c17MaskOrder, byteOver)
-			ctx.Fail("C17/limits/persistable-despite-excess/masked-by-"+mask,
-				"%s: %s exceeds the hard limit (255 code points / 65536 bytes) but the error is Persistable (%q): the byte-length error of %s was returned first", desc, f, eve.Message, mask)
 		default:
 			ctx.Fail("C17/limits/not-refused/"+f+"/"+c.Path, "%s: %s exceeds the hard limit but the result is %s (err %v)", desc, f, got, err)
 		}
@@ -456,14 +476,17 @@ func c17EnumLimits(size, shard, nshards int, emit func(c17LimCase)) {
 			for n := 65536 - size; n <= 65536+size; n++ {
 				out(c17LimCase{Version: ver, Path: path, Size: n})
 			}
-			// one field over the byte limit only + another one over the code-point limit / the event over size
+			// the complete pair product: each field over the byte limit only x each field over the
+			// code-point limit (ASCII and multi-byte filler) and x the whole event over its size limit
 			for _, a := range names {
 				for _, b := range names {
 					if a != b {
 						out(c17LimCase{Version: ver, Path: path, Fields: []c17Field{{a, "bytes", 2, 256}, {b, "codepoints", 1, 256}}})
+						out(c17LimCase{Version: ver, Path: path, Fields: []c17Field{{a, "bytes", 3, 257}, {b, "codepoints", 2, 256}}})
 					}
 				}
 				out(c17LimCase{Version: ver, Path: path, Fields: []c17Field{{a, "bytes", 3, 257}}, Size: 65537})
+				out(c17LimCase{Version: ver, Path: path, Fields: []c17Field{{a, "bytes", 2, 256}}, Size: 65537})
 				out(c17LimCase{Version: ver, Path: path, Fields: []c17Field{{a, "bytes", 3, 257}}, Size: 65536})
 			}
 		}
@@ -906,7 +929,7 @@ func c17EnumVersions(size, shard, nshards int, emit func(c17VTCase)) {
 }
 
 func init() {
-	ruleL := "non-trivial = every case: a limited field (type, state_key, sender, room_id) within +/-1 (thorough: +/-3) of the 255 limit measured in bytes or in code points with 1/2/3/4-byte filler runes, or the whole event within +/-1 of 65536 bytes, or one field over the byte limit only combined with another over the hard limit; x 16 room versions x {receipt, build}. distinct = distinct Case JSON."
+	ruleL := "non-trivial = every case: a limited field (type, state_key, sender, room_id) within +/-1 (thorough: +/-3) of the 255 limit measured in bytes or in code points with 1/2/3/4-byte filler runes, or the whole event within +/-1 of 65536 bytes, or the complete pair product (each field over the byte limit only x each other field over the code-point limit, and x the whole event over 65536 bytes); x 16 room versions x {receipt, build}. distinct = distinct Case JSON."
 	vfEnum("C17/limits", ruleL, 1, 3, 4, c17EnumLimits, c17CheckLimits)
 	vfRapid("C17/limits-mixed", ruleL+" The mixed variant draws 0-4 fields at 250..260 and optionally an event size 65530..65542.", 1500, 40000, 8, c17GenLimits, c17CheckLimits)
 	ruleV := "non-trivial = every case: one row of the complete room-version table (16 registered versions + the registry itself), all columns."
